@@ -5,6 +5,7 @@ package main
 import (
 	"fmt"
 	"math/big"
+	"runtime"
 
 	"github.com/onflow/crypto"
 	"github.com/onflow/crypto/hash"
@@ -13,6 +14,16 @@ import (
 )
 
 const blsAlg = crypto.BLSBLS12381
+
+// rawHasher returns (a copy of) whatever its owner put into out.
+type rawHasher struct{ out []byte }
+
+func (h *rawHasher) Algorithm() hash.HashingAlgorithm { return hash.UnknownHashingAlgorithm }
+func (h *rawHasher) Size() int                        { return len(h.out) }
+func (h *rawHasher) ComputeHash([]byte) hash.Hash     { return append([]byte{}, h.out...) }
+func (h *rawHasher) Write(p []byte) (int, error)      { return len(p), nil }
+func (h *rawHasher) SumHash() hash.Hash               { return append([]byte{}, h.out...) }
+func (h *rawHasher) Reset()                           {}
 
 func flip(b []byte, i int) []byte {
 	c := append([]byte{}, b...)
@@ -69,6 +80,37 @@ func blsSections(t *T) {
 			okp, _ := crypto.BLSVerifyPOP(pk, pop)
 			t.line("bls", "shaped-scalar", hx(b), hx(pk.Encode())+"/"+dg(sig)+fmt.Sprintf("/%v/%v", ok, okp))
 		}
+	}
+	// caller-provided hashers whose 128-byte outputs are related (common prefix / suffix, one bit apart),
+	// signed and verified one right after the other on one OS thread
+	{
+		runtime.LockOSThread()
+		cur := make([]byte, 128)
+		ch := &rawHasher{out: cur}
+		sk, _ := crypto.DecodePrivateKey(blsAlg, append(make([]byte, 31), 5))
+		pk := sk.PublicKey()
+		for _, k := range []int{1, 8, 15, 16, 17, 32, 48, 63, 64, 65, 96, 120, 127} {
+			a := rb(r, 128)
+			a[0], a[64] = a[0]&0x0f, a[64]&0x0f
+			b := append(append([]byte{}, a[:k]...), rb(r, 128-k)...)
+			b[64] &= 0x0f
+			c := append(rb(r, 128-k), a[128-k:]...)
+			c[0], c[64] = c[0]&0x0f, c[64]&0x0f
+			d := append([]byte{}, a...)
+			d[k] ^= 1
+			var sigA []byte
+			for j, u := range [][]byte{a, b, a, c, a, d, c, b} {
+				copy(cur, u)
+				sig, err := sk.Sign([]byte("m"), ch)
+				if j == 0 {
+					sigA = sig
+				}
+				okOwn, _ := pk.Verify(sig, []byte("m"), ch)
+				okA, _ := pk.Verify(sigA, []byte("m"), ch)
+				t.line("bls-custom-hasher", fmt.Sprintf("related-%d/%d", k, j), hx(u), hx(sig)+"/"+errClass(err)+fmt.Sprintf("/%v/%v", okOwn, okA))
+			}
+		}
+		runtime.UnlockOSThread()
 	}
 	var sks []crypto.PrivateKey
 	var pks []crypto.PublicKey
